@@ -199,7 +199,7 @@ def main():
         import traceback
         tb = traceback.format_exc()
         print(tb, file=sys.stderr)
-        repo = os.environ.get("VERIF_REPO", "/repo")
+        repo = (os.environ.get("VERIF_REPO") or "/repo")
         etype = sys.exc_info()[0]
         if issubclass(etype, (OSError, MemoryError, ImportError)) and f'File "{repo}/' not in tb:
             # resources / environment, nothing of the implementation on the stack: the machinery itself
